@@ -848,6 +848,15 @@ def classify(spec, deriv, tag, msg, hit):
             return "C14/row-apply-upcasts-int-columns"
     if deriv == "doseid" and tag == "position:first-tie":
         return "C14/doseid-first-row-special-case"
+    if deriv in ("doseid", "tad") and tag in ("value", "tadvalue", "position:other") and max(v.segments()) > 0:
+        # a clock value that occurs on both sides of a reset (both readings of "same time point" give the expected
+        # value, see ref_doseid): either the 'row label 0' special case fires for a later tie of the first individual,
+        # or the tie adjustment is applied once per reset group that has the clock value more than once
+        hit("delta_check")
+        if tag != "position:other" and _gone(D.neutral_prepend_individual(spec), deriv, tag):
+            return "C14/doseid-first-row-special-case"
+        if _gone(D.neutral_segment_times(spec), deriv, tag):
+            return "C14/doseid-tie-adjusted-once-per-reset-group"
     if deriv == "tad" and tag.startswith("negative") and max(v.segments()) > 0:
         hit("delta_check")
         if _gone(D.neutral_segment_times(spec), deriv, "negative"):
